@@ -35,6 +35,36 @@ def classify_wrap(e, xparam, problems):
             return None
         M = r + 1 if isinstance(inner.op, ast.BitAnd) else r
         return ("mod", M, l[1], l[2])
+    if isinstance(inner, ast.BinOp) and isinstance(inner.op, ast.Sub):
+        # offset-binary spelling: ((x + H) mod M) - H  ==  x mod M re-signed at M - H (two's complement iff H == M/2), provided the
+        # addition is carried out on integers (a float sum x + H is rounded to 53 bits before the low bits are taken)
+        lm, mcasts = peel(inner.left)
+        if isinstance(lm, ast.BinOp) and isinstance(lm.op, (ast.BitAnd, ast.Mod)):
+            addn, addcasts = peel(lm.left)
+            if isinstance(addn, ast.BinOp) and isinstance(addn.op, ast.Add):
+                l = classify_wrap(addn.left, xparam, problems)
+                if l is not None and l[0] == "raw":
+                    try:
+                        Hadd = mkterm(addn.right, rename=_ident)
+                        Hsub = mkterm(inner.right, rename=_ident)
+                        r = mkterm(lm.right, rename=_ident)
+                    except NotATerm:
+                        return None
+                    M = r + 1 if isinstance(lm.op, ast.BitAnd) else r
+                    wide_cast = lambda cs: any(c[0] == "int_array" or (c[0] == "map" and c[1] == "int") or (c[0] in ("astype", "np.array") and c[1] in WIDE_CASTS) for c in cs)
+                    for c in addcasts:
+                        if c[0] == "astype" and c[1] is not None and c[1] not in WIDE_CASTS:
+                            problems.append(("no narrowing cast precedes the modular reduction", "cast to %s" % c[1], "values of 2^31 or more are destroyed before the low n_word bits are taken"))
+                    zero = Hadd == Term.const(0) if hasattr(Term, "const") else False
+                    if Hadd != Hsub:
+                        problems.append(("the offset added before the mask is the offset removed after it", "adds %s, subtracts %s" % (Hadd.show(), Hsub.show()), "the residue is shifted by the difference"))
+                        return None
+                    if zero:
+                        return ("mod", M, l[1] or wide_cast(addcasts), l[2] + addcasts)
+                    if not wide_cast(l[2]):
+                        problems.append(("the half-period offset is added to the value after its conversion to integers", "offset added in %s" % src(addn)[:70],
+                                         "a float sum x + 2^(n_word-1) is rounded to the 53-bit mantissa: for |x| >= 2^53 the offset is absorbed and the wrapped code is off by half a period"))
+                    return ("resigned", M, Hadd, M, l[1] or wide_cast(addcasts), l[2] + addcasts)   # threshold M - H equals 2^(n-1) iff H does (M is checked against 2^n)
     if isinstance(inner, ast.Call) and dotted(inner.func) == "np.where" and len(inner.args) == 3:
         c, a, b = inner.args
         return _resign(c, a, b, xparam, problems)
@@ -198,6 +228,14 @@ def threshold_everywhere(ck, rule):
     """C18.R1: every carrier switch compares a word/fraction length against the same module constant with >=."""
     prog = ck.prog
     n = 0
+    from ..pinned import PINNED_FUNCS
+    helper_calls = {}
+    for f in prog.all_funcs():
+        for node in ast.walk(f.node):
+            if isinstance(node, ast.Call):
+                nm = node.func.id if isinstance(node.func, ast.Name) else (node.func.attr if isinstance(node.func, ast.Attribute) else None)
+                if nm:
+                    helper_calls[nm] = helper_calls.get(nm, 0) + 1
     for f in prog.all_funcs():
         if f.module not in ("objects", "functions", "utils"):
             continue
@@ -206,7 +244,8 @@ def threshold_everywhere(ck, rule):
                 l, op, r = node.left, node.ops[0], node.comparators[0]
                 for a, b, o in ((l, r, op), (r, l, _flip(op))):
                     if _mentions_threshold(b) and not _shadowed(f, "_n_word_max"):
-                        n += 1
+                        # a switch factored into a helper that is new with respect to the pinned tree stands for each of its call sites
+                        n += max(1, helper_calls.get(f.name, 0)) if f.qualname not in PINNED_FUNCS else 1
                         okop = isinstance(o, (ast.GtE, ast.Lt))
                         oksym = _threshold_ok(prog, b) or _is_local_threshold(f, b)
                         ck.check(okop and oksym, rule, f, "carrier switch compares against the word maximum with >= (64 is the first extended width)",
